@@ -9,9 +9,9 @@ PAIRS = [('A', 'B'), ('A', 'C'), ('B', 'C')]
 def bounds(tier):
     if tier == 'quick':
         return {'domain': '(A,B,C) sizes (2,2,2)', 'deviations': 1, 'noise_answers': QUICK_ALTS, 'datasets': ['conc6', 'spread20'],
-                'eps_delta': [[1.0, 1e-6], [10.0, 1e-3]], 'aim_default_rounds': 'default execution only'}
+                'eps_delta': [[1.0, 1e-6], [10.0, 1e-3]], 'tiny_eps_delta': [[0.0008, 1e-9], [0.0012, 1e-6], [0.0015, 1e-6]], 'aim_default_rounds': 'default execution only'}
     return {'domain': '(A,B,C) sizes (2,3,2)', 'deviations': 2, 'noise_answers': FULL_ALTS, 'datasets': ['conc6', 'spread20', 'single'],
-            'eps_delta': [[1.0, 1e-6], [0.1, 1e-9], [10.0, 1e-3]], 'caps': 'per (spec, dataset): 150 (AIM, MWEM) / 120 (MST, adaptive grid) base executions; 40 for the 4x4x4 AIM spec, 10 for the 7-attribute adaptive grid'}
+            'eps_delta': [[1.0, 1e-6], [0.1, 1e-9], [10.0, 1e-3]], 'tiny_eps_delta': [[0.0008, 1e-9], [0.0012, 1e-6], [0.0015, 1e-6]], 'caps': 'per (spec, dataset): 150 (AIM, MWEM) / 120 (MST, adaptive grid) base executions; 40 for the 4x4x4 AIM spec, 10 for the 7-attribute adaptive grid'}
 
 
 def specs(tier):
@@ -54,6 +54,13 @@ def specs(tier):
             if tier == 'quick' and (split is None) != (thr == 5.0):
                 continue
             out.append({'mech': 'adagrid', 'eps': eps, 'delta': delta, 'targets': targets, 'split': split, 'threshold': thr})
+    # tiny budgets (rho of the order 1e-7): absolute tolerances or iteration caps inside the (eps, delta) -> rho conversion become
+    # a sizeable fraction of the budget; every mechanism spends what the conversion returns
+    for eps, delta in [(0.0008, 1e-9), (0.0012, 1e-6), (0.0015, 1e-6)]:
+        out.append({'mech': 'mst', 'eps': eps, 'delta': delta, 'ds': ['spread20']})
+        out.append({'mech': 'mwem', 'eps': eps, 'delta': delta, 'noise': 'gaussian', 'bounded': False, 'rounds': 2, 'alpha': 0.9, 'ds': ['spread20']})
+        out.append({'mech': 'aim', 'eps': eps, 'delta': delta, 'rounds': 2, 'workload': [['A', 'B'], ['B', 'C']], 'ds': ['spread20']})
+        out.append({'mech': 'adagrid', 'eps': eps, 'delta': delta, 'targets': [], 'split': None, 'threshold': 5.0, 'ds': ['spread20']})
     return out
 
 
